@@ -15,6 +15,7 @@ import Driver.Client
 import Driver.Shared
 import Driver.HttpClient
 import Driver.Total
+import Driver.B64
 
 open Driver
 
@@ -40,6 +41,7 @@ def dispatch (line : String) : String :=
       else if op.startsWith "sh." then Shared.handle op args
       else if op.startsWith "hc." then HttpClient.handle op args
       else if op.startsWith "tt." then Total.handle op args
+      else if op.startsWith "b64." then B64.handle op args
       else none
     match r with
     | some s => s
